@@ -744,4 +744,104 @@ theorem utf8s_length_ge : ∀ s : Str, s.length ≤ (utf8s s).length
     have := utf8_length_pos c
     simp only [List.length_cons, List.length_append]; omega
 
+/-! ## escapedUnit: the four hexadecimal digits -/
+
+theorem or16 (r v : Nat) (h : v < 16) : (r * 16) ||| v = r * 16 + v := by
+  have := Nat.shiftLeft_add_eq_or_of_lt (b := v) (i := 4) (by simpa using h) r
+  simp only [Nat.shiftLeft_eq] at this
+  exact this.symm
+
+/-- the model's reading of hexadecimal digits, most significant first -/
+def hexFold : List Nat → Nat → Option Nat
+  | [], r => some r
+  | c :: cs, r => match hexDigit c with
+    | some v => hexFold cs (r * 16 + v)
+    | none => none
+
+abbrev HexSt := Option Int × Int
+
+/-- one round of `for _, c := range data[2:6]` -/
+def hexStep (c : Nat) (s : HexSt) : ForInStep HexSt :=
+  if 48 ≤ c ∧ c ≤ 57 then .yield (none, intOr (s.2 * 2 ^ Int.toNat 4) (Int.ofNat (c - 48)))
+  else if 97 ≤ c ∧ c ≤ 102 then .yield (none, intOr (s.2 * 2 ^ Int.toNat 4) (Int.ofNat (c - 87)))
+  else if 65 ≤ c ∧ c ≤ 70 then .yield (none, intOr (s.2 * 2 ^ Int.toNat 4) (Int.ofNat (c - 55)))
+  else .done (some (-1), s.2)
+
+theorem intOr_step (r v : Nat) (h : v < 16) : intOr ((r : Int) * 2 ^ Int.toNat 4) (Int.ofNat v) = ((r * 16 + v : Nat) : Int) := by
+  unfold intOr
+  have e1 : ((r : Int) * 2 ^ Int.toNat 4).toNat = r * 16 := by
+    have : (2 : Int) ^ Int.toNat 4 = 16 := by decide
+    rw [this]; omega
+  rw [e1, show (Int.ofNat v).toNat = v from rfl, or16 r v h]; rfl
+
+theorem hexStep_eq (c : Nat) (r : Nat) :
+    hexStep c (none, (r : Int)) = match hexDigit c with
+      | some v => .yield (none, ((r * 16 + v : Nat) : Int))
+      | none => .done (some (-1), (r : Int)) := by
+  unfold hexStep hexDigit
+  by_cases h1 : 48 ≤ c ∧ c ≤ 57
+  · have : (decide (0x30 ≤ c) && decide (c ≤ 0x39)) = true := by simp; omega
+    simp only [h1, and_self, if_true, this, intOr_step r (c - 48) (by omega)]; rfl
+  · have n1 : (decide (0x30 ≤ c) && decide (c ≤ 0x39)) = false := by
+      rw [Bool.eq_false_iff]; simp; omega
+    by_cases h2 : 97 ≤ c ∧ c ≤ 102
+    · have : (decide (0x61 ≤ c) && decide (c ≤ 0x66)) = true := by simp; omega
+      have e : c - 0x61 + 10 = c - 87 := by omega
+      simp only [h1, h2, and_self, if_true, if_false, n1, this, Bool.false_eq_true, e, intOr_step r (c - 87) (by omega)]
+      simp
+    · have n2 : (decide (0x61 ≤ c) && decide (c ≤ 0x66)) = false := by
+        rw [Bool.eq_false_iff]; simp; omega
+      by_cases h3 : 65 ≤ c ∧ c ≤ 70
+      · have : (decide (0x41 ≤ c) && decide (c ≤ 0x46)) = true := by simp; omega
+        have e : c - 0x41 + 10 = c - 55 := by omega
+        simp only [h1, h2, h3, and_self, if_true, if_false, n1, n2, this, Bool.false_eq_true, e,
+          intOr_step r (c - 55) (by omega)]
+        simp
+      · have n3 : (decide (0x41 ≤ c) && decide (c ≤ 0x46)) = false := by
+          rw [Bool.eq_false_iff]; simp; omega
+        simp only [h1, h2, h3, if_false, n1, n2, n3, Bool.false_eq_true]
+
+theorem hex_loop (f : Nat → HexSt → Id (ForInStep HexSt)) (hf : ∀ c s, f c s = pure (hexStep c s)) :
+    ∀ (l : List Nat) (r : Nat),
+      match hexFold l r with
+      | some r' => (forIn (m := Id) l (none, (r : Int)) f).run = (none, (r' : Int))
+      | none => (forIn (m := Id) l (none, (r : Int)) f).run.1 = some (-1)
+  | [], r => by simp [hexFold, Id.run, GoSem.id_pure]
+  | c :: cs, r => by
+    simp only [List.forIn_cons, hf, pure_bind, hexStep_eq, hexFold]
+    cases hexDigit c with
+    | none => simp [Id.run, GoSem.id_pure]
+    | some v => exact hex_loop f hf cs (r * 16 + v)
+
+/-- the whole of escapedUnit after its guard -/
+theorem hex_wrap (f : Nat → HexSt → Id (ForInStep HexSt)) (hf : ∀ c s, f c s = pure (hexStep c s)) (l : List Nat)
+    (k : HexSt → Id Int) (hk : ∀ s, k s = match s.1 with | some r => pure r | none => pure s.2) :
+    (forIn (m := Id) l (none, 0) f >>= k) = (match hexFold l 0 with
+      | some r' => ((r' : Nat) : Int)
+      | none => (-1 : Int) : Int) := by
+  have h := hex_loop f hf l 0
+  simp only [Id.run] at h
+  cases hh : hexFold l 0 with
+  | some r' =>
+    rw [hh] at h
+    simp only [bind]
+    rw [show ((0 : Int)) = ((0 : Nat) : Int) from rfl, h, hk]; rfl
+  | none =>
+    rw [hh] at h
+    simp only [bind]
+    rw [show ((0 : Int)) = ((0 : Nat) : Int) from rfl, hk, h]; rfl
+
+
+theorem escapedUnit_guard (a0 a1 a b c d : Nat) (rest : Bytes) (h : a0 ≠ 92 ∨ a1 ≠ 117) :
+    C14n.escapedUnit (a0 :: a1 :: a :: b :: c :: d :: rest) = none := by
+  rw [C14n.escapedUnit.eq_def]
+  split
+  · rename_i heq
+    simp only [List.cons.injEq] at heq
+    rcases h with h | h
+    · exact absurd heq.1 h
+    · exact absurd heq.2.1 h
+  · rfl
+
+
 end GoblVerif.C14nSrc
